@@ -206,14 +206,15 @@ def builtin (r : Remote) (f : Frame) (fs : List Frame) (ext : Bytes × Nat) (ws 
       | _ => (b!"set: not modelled\n", r.setLast 2)
     else if cmd == b!"exit" then
       ((if r.ash then [] else b!"exit\n"), { r with frames := fs, last := 0 })
-    else if cmd :: args == spawnWords r.ash then
-      -- a nested shell: exported variables and working directory are inherited, options are not
-      ([], { r with frames := { f with opts := [], ps1 := defaultPs1 } :: f :: fs, last := 0 })
     else if cmd == b!"unset" || cmd == b!"stty" then ([], r.setLast 0)
     else if cmd.head? == some 47 then
       -- an external program (absolute path): abstract, prints `ext.1` and exits with `ext.2`
       (ext.1, { r with last := ext.2 % 256, seen := some (cmd :: args) })
     else if cmd.contains EQ && args.isEmpty then ([], r.setLast 0)   -- `PS2=''`, `histchars=''`
+    else if cmd :: args == spawnWords r.ash then
+      -- a nested shell: exported variables and working directory are inherited, options and the
+      -- prompt are not
+      ([], { r with frames := { f with opts := [], ps1 := defaultPs1 } :: f :: fs, last := 0 })
     else (b!"not found\n", r.setLast 127)
 
 /-- the shell reads one complete command (`line` as the foreground process sees it, without the
